@@ -76,6 +76,12 @@ func k3(args []string) {
 		emit("map", c[0], c[1], c[2], "")
 	}
 	emit("map", "nil map", it.MapNilImpl(), "0", "")
+	for _, c := range it.MapInsertCases() {
+		emit("map", c[0], c[1], c[2], "")
+	}
+	for _, c := range it.ChanNilCases() {
+		emit("chan", c[0], c[1], c[2], "")
+	}
 	for i := 0; i < 6; i++ {
 		var vals []int
 		for j := 0; j < i; j++ {
